@@ -394,7 +394,48 @@ func (fr *Frame) mapLen(h *Heap, mt *types.Map, m string) string {
 // ---------------------------------------------------------------------------
 // range over map / string
 
-func (fr *Frame) rangeStart(in *ssa.Range) {}
+// rvFam: ghost family holding the set of keys a map range has yielded so far.
+func (fr *Frame) rvFam(in *ssa.Range) string {
+	fam := "RV_" + funcKey(fr.fn) + "." + in.Name()
+	fr.vc.family(fam, "(Array Int Bool)")
+	return fam
+}
+
+func (fr *Frame) rangeStart(in *ssa.Range) {
+	if _, ok := in.X.Type().Underlying().(*types.Map); ok {
+		fr.cur.heap = fr.vc.heapSet(fr.cur.heap, fr.rvFam(in), "((as const (Array Int Bool)) false)")
+	}
+}
+
+// insertFree: no code inside the loop headed by h can add an entry to a map of type mt (deleting is
+// allowed). Only then does "the range is exhausted" imply "every entry still present was yielded":
+// Go may skip entries created during the iteration.
+func (fr *Frame) insertFree(h *ssa.BasicBlock, mt *types.Map) bool {
+	li := fr.loops[h]
+	if li == nil {
+		return false
+	}
+	vc := fr.vc
+	set := map[string]bool{}
+	for b := range li.blocks {
+		for _, in := range b.Instrs {
+			switch x := in.(type) {
+			case *ssa.MapUpdate, *ssa.MakeMap, *ssa.Store:
+				one := &ssa.BasicBlock{Instrs: []ssa.Instruction{in}}
+				vc.modSetBlock(fr.fn, one, set, map[*ssa.Function]bool{})
+			case ssa.CallInstruction:
+				if _, isGo := in.(*ssa.Go); isGo {
+					continue
+				}
+				if bi, ok := x.Common().Value.(*ssa.Builtin); ok && bi.Name() == "delete" {
+					continue // deleting never adds an entry
+				}
+				vc.modSetCall(x.Common(), set, map[*ssa.Function]bool{})
+			}
+		}
+	}
+	return !inSet(set, vc.mapFamilies(mt).has)
+}
 
 func (fr *Frame) next(in *ssa.Next) Val {
 	vc := fr.vc
@@ -417,8 +458,19 @@ func (fr *Frame) next(in *ssa.Next) Val {
 	key := vc.mapKey(mt.Key(), Val{Typ: mt.Key(), L: kv.L})
 	has, val := fr.mapRead(fr.cur.heap, mt, x.T(), key)
 	vc.assume(fr.curR, "(=> "+ok+" (and "+not(eq(x.T(), "0"))+" "+has+"))")
-	// an empty map yields nothing; a non-empty one may (the visited set is not tracked)
+	// an empty map yields nothing
 	vc.assume(fr.curR, "(=> (= "+fr.mapLen(fr.cur.heap, mt, x.T())+" 0) (not "+ok+"))")
+	// the set of keys yielded so far: each entry is produced at most once, and when nothing in the loop
+	// can insert, the range ends only when every entry still present has been produced
+	rv := fr.rvFam(rng)
+	seen := vc.lookup(fr.cur.heap, rv)
+	vc.assume(fr.curR, "(=> "+ok+" (not (select "+seen+" "+key+")))")
+	if fr.insertFree(in.Block(), mt) {
+		kq := q(vc.freshName("k"))
+		hasArr := "(select " + vc.lookup(fr.cur.heap, vc.mapFamilies(mt).has) + " " + x.T() + ")"
+		vc.assume(fr.curR, "(=> (and (not "+ok+") "+not(eq(x.T(), "0"))+") (forall (("+kq+" Int)) (! (=> (select "+hasArr+" "+kq+") (select "+seen+" "+kq+")) :pattern ((select "+hasArr+" "+kq+")))))")
+	}
+	fr.cur.heap = vc.heapSet(fr.cur.heap, rv, vc.define(rv, "(Array Int Bool)", ite(ok, "(store "+seen+" "+key+" true)", seen)))
 	out.L = append(out.L, kv.L...)
 	if _, isInvalid := tup.At(2).Type().(*types.Basic); isInvalid && tup.At(2).Type().(*types.Basic).Kind() == types.Invalid {
 		out.L = append(out.L, "0")
